@@ -177,6 +177,7 @@ package utils
 //@   modifies args
 //@ func (*ChunkReader) stashAndSkipHeader
 //@   ensures {C02,C12} [whether-the-raw-stream-ended-is-left-alone] cr.isEOF == old(cr.isEOF)
+//@   ensures {C12} [the-first-header-mark-is-left-alone] cr.isFirstHeader == old(cr.isFirstHeader)
 //@   ensures {C12} [an-error] ret3 != nil
 //@   ensures {C12} [not-a-clean-end] ret3 != io.EOF
 //@   ensures {C20} [no-size] ret0 == 0
@@ -184,6 +185,7 @@ package utils
 //@   ensures {C12,C20} [the-stash-is-a-private-copy] !samearray(cr.stash, header) && len(cr.stash) == len(header)
 //@ func (*ChunkReader) handleRdrErr
 //@   ensures {C02,C12} [whether-the-raw-stream-ended-is-left-alone] cr.isEOF == old(cr.isEOF)
+//@   ensures {C12} [the-first-header-mark-is-left-alone] cr.isFirstHeader == old(cr.isFirstHeader)
 //@   ensures {C12} [an-error-stays-an-error] in1 != nil ==> ret3 != nil
 //@   ensures {C12} [not-a-clean-end] ret3 != io.EOF
 //@   ensures {C20} [no-size] ret0 == 0
@@ -195,6 +197,9 @@ package utils
 //@   ensures {C20} [a-chunk-size-is-a-count] ret3 == nil ==> ret0 >= 0
 // an accepted header carries a signature: the empty string is the decoder's mark for "nothing left to verify"
 //@   ensures {C06,C12} [an-accepted-chunk-header-carries-a-signature] ret3 == nil ==> ret1 != ""
+// the mark "no header has been read yet" (no CRLF in front of the first header) is taken down only by a header that was
+// parsed completely: one that has to wait for the next read is looked at again from its first byte
+//@   ensures {C12} [the-first-header-mark-falls-only-with-a-complete-header] (ret3 != nil ==> cr.isFirstHeader == old(cr.isFirstHeader)) && (ret3 == nil && ret0 != 0 ==> !cr.isFirstHeader)
 //@ func (*ChunkReader) expectEnd
 //@   requires cr.r != nil
 //@   ensures {C12} [not-a-clean-end] ret0 != io.EOF
